@@ -236,6 +236,13 @@ def gadget_networks() -> dict[str, list[list[int]]]:
     g["maa_inner"] = bn.from_exprs(4, [lambda s: s[1] or (s[2] and s[3]), lambda s: s[0],
                                        lambda s: (s[2] == s[3]) and s[0], lambda s: (s[2] == s[3]) and s[0]])
     g["maa_inner_latch"] = bn.disjoint_union(g["maa_inner"], g["latch"])
+    # an input that changes the LOGIC of a downstream module without changing its variable set (round-4 seeds: verdicts or
+    # sub-diagrams cached per variable set): below s = 0 a bistable block, below s = 1 the classic motif-avoidant network
+    g["src_maa_gate"] = bn.from_exprs(4, [lambda s: s[0], lambda s: ((not s[1]) and (not s[2]) and s[0]) or s[3],
+                                          lambda s: ((not s[1]) and (not s[2]) and s[0]) or s[3], lambda s: s[1] and s[2]])
+    # below s = 0 a positive cycle {A, B}, below s = 1 a negative one; a second source SCC next to it
+    g["src_xor_scc"] = bn.from_exprs(4, [lambda s: s[0], lambda s: s[2] != s[0], lambda s: s[1], lambda s: not s[3]])
+    g["src_xor_scc2"] = bn.from_exprs(5, [lambda s: s[0], lambda s: s[2] != s[0], lambda s: s[1], lambda s: s[4], lambda s: s[3]])
     g["xnor_latch"] = bn.disjoint_union(g["xnor2"], g["latch"])
     g["xnor_2latch"] = bn.disjoint_union(g["xnor_latch"], g["latch"])
     g["xnor_3latch"] = bn.disjoint_union(g["xnor_2latch"], g["latch"])
